@@ -273,6 +273,13 @@ def main():
     L.append("")
     L.append(f"def lruCacheId : Nat := {names.struct('LruCache')}")
     L.append(f"def borrowingIterIds : List Nat := [{', '.join(str(names.struct(b)) for b in sorted(BORROWING_TYPES))}]")
+    # the public view types, by what they give access to: `&` to the entries, `&mut` to the cache, the cache itself
+    for lst, members in (("sharedIterIds", ["Iter", "Keys", "Values"]), ("exclIterIds", ["Drain"]),
+                         ("owningIterIds", ["IntoIter", "IntoKeys", "IntoValues"])):
+        for m_ in members:
+            if m_ not in names.structs:
+                raise Err(f"public iterator type {m_} not found in the source")
+        L.append(f"def {lst} : List Nat := [{', '.join(str(names.struct(b)) for b in members)}]")
     api_names = ", ".join('(%d, "%s")' % (v, k) for k, v in names.fns.items())
     L.append("def apiNames : List (Nat × String) := [" + api_names + "]")
     L.append("")
